@@ -20,6 +20,12 @@ def _leaf(kind, i, vals):
     if kind == "stub-cond":
         return {"type": "verif-stub", "text": f'resource["{f}"] == 1 ? resource["{g}"] == 1 : resource["{g}"] == 2'}, \
             (vals[g] == 1 if vals[f] == 1 else vals[g] == 2)
+    if kind == "stub-paren-and":
+        return {"type": "verif-stub", "text": f'(resource["{f}"] == 1) && (resource["{g}"] == 1)'}, vals[f] == 1 and vals[g] == 1
+    if kind == "stub-paren-or":
+        return {"type": "verif-stub", "text": f'(resource["{f}"] == 1) || (resource["{g}"] == 1)'}, vals[f] == 1 or vals[g] == 1
+    if kind == "stub-bslash-or":
+        return {"type": "verif-stub", "text": f'resource["{f}"] == 1 && "\\\\" != "" || resource["{g}"] == 1'}, vals[f] == 1 or vals[g] == 1
     if kind == "stub-not":
         return {"type": "verif-stub", "text": f'! [1].contains(resource["{f}"])'}, not (vals[f] == 1)
     raise ValueError(kind)
